@@ -161,18 +161,17 @@ Bucket_grow(Bucket *self, int newsize, int noval)
             goto Overflow;
         UNLESS (keys = BTree_Realloc(self->keys, sizeof(KEY_TYPE) * newsize))
             return -1;
+        /* realloc may have moved (and freed) the old block: keep the new one
+         * even if growing the values fails below; self->size is unchanged */
+        self->keys = keys;
 
         UNLESS (noval)
         {
             values = BTree_Realloc(self->values, sizeof(VALUE_TYPE) * newsize);
             if (values == NULL)
-            {
-                free(keys);
                 return -1;
-            }
             self->values = values;
         }
-        self->keys = keys;
     }
     else
     {
@@ -1320,10 +1319,11 @@ _bucket_setstate(Bucket *self, PyObject *state)
         keys = BTree_Realloc(self->keys, sizeof(KEY_TYPE)*len);
         if (keys == NULL)
             return -1;
+        /* the old block may be gone: never leave self->keys pointing at it */
+        self->keys = keys;
         values = BTree_Realloc(self->values, sizeof(VALUE_TYPE)*len);
         if (values == NULL)
             return -1;
-        self->keys = keys;
         self->values = values;
         self->size = len;
     }
